@@ -16,6 +16,8 @@ type Event struct {
 	Kind string
 	Site ssa.Instruction
 	Args []AVal
+	PC   map[string]int // decided atoms at the time of the event (when Interp.SnapshotPC)
+	Fn   *ssa.Function  // innermost interpreted function at the time of the event
 }
 
 // Trace is the result of one partition of the trace set.
@@ -48,11 +50,15 @@ type Interp struct {
 	WidenAfter int // arrivals at a loop header that keep concrete loop-carried values (unrolling) before widening starts
 	MaxLoop  int // visits of one loop header per trace before the partition is cut
 
+	SnapshotPC bool // events carry a copy of the decided atoms
+	stack      []*ssa.Function
 	EagerWiden bool // loop-carried values are abstracted to a loop-variant symbol from the first arrival on
 	MaybeNil  func(key string) bool // symbolic pointers that may be nil (dereference partitions on nil-ness)
 	ForgetAll bool   // at a repeated loop-header arrival forget every atom decided inside the loop (walker mode)
 	ResetHook func() // called at the start of every trace
-	journal   []func()
+	journal   []journalEntry
+	Variant   func(key string) bool // keys that denote a different value in every loop iteration
+	invCount  map[*ssa.Function]int
 
 	decisions []int
 	maxes     []int
@@ -67,6 +73,11 @@ type Interp struct {
 	symCells  map[string]*Cell
 	constGlob map[*ssa.Global]AVal
 	hdrCache  map[*ssa.Function]map[*ssa.BasicBlock]bool
+}
+
+type journalEntry struct {
+	key  string
+	undo func()
 }
 
 type aiAbort struct {
@@ -157,6 +168,8 @@ func (in *Interp) runOnce(fn *ssa.Function, args []AVal) (tr Trace) {
 	in.globals = map[*ssa.Global]*Cell{}
 	in.symCells = map[string]*Cell{}
 	in.journal = nil
+	in.stack = nil
+	in.invCount = map[*ssa.Function]int{}
 	if in.ResetHook != nil {
 		in.ResetHook()
 	}
@@ -214,7 +227,17 @@ func (in *Interp) Panics(at ssa.Instruction, format string, a ...interface{}) {
 
 // Emit records an event.
 func (in *Interp) Emit(kind string, site ssa.Instruction, args ...AVal) {
-	in.events = append(in.events, Event{Kind: kind, Site: site, Args: args})
+	e := Event{Kind: kind, Site: site, Args: args}
+	if in.SnapshotPC {
+		e.PC = make(map[string]int, len(in.pc))
+		for k, v := range in.pc {
+			e.PC[k] = v
+		}
+	}
+	if len(in.stack) > 0 {
+		e.Fn = in.stack[len(in.stack)-1]
+	}
+	in.events = append(in.events, e)
 }
 
 // Choose decides an n-ary atom (once per trace).
@@ -239,12 +262,15 @@ func (in *Interp) Choose(atom string, n int) int {
 	in.pos++
 	in.pc[atom] = v
 	in.order = append(in.order, atom)
-	in.Journal(func() { delete(in.pc, atom) })
+	in.Journal(atom, func() { delete(in.pc, atom) })
 	return v
 }
 
-// Journal registers an undo action for state that must be forgotten when a loop repeats.
-func (in *Interp) Journal(undo func()) { in.journal = append(in.journal, undo) }
+// Journal registers an undo action for a fact about `key`; it runs when a loop repeats
+// and the key denotes a loop-variant value.
+func (in *Interp) Journal(key string, undo func()) {
+	in.journal = append(in.journal, journalEntry{key, undo})
+}
 
 // Decided returns the decision for an atom if already taken on this trace.
 func (in *Interp) Decided(atom string) (int, bool) { v, ok := in.pc[atom]; return v, ok }
@@ -265,6 +291,7 @@ func (in *Interp) truth(v AVal) bool {
 }
 
 type frame struct {
+	inv     int // which invocation of fn on this trace (loop-variant symbols are per invocation)
 	fn      *ssa.Function
 	env     map[ssa.Value]AVal
 	defers  []*ssa.Defer
@@ -400,12 +427,18 @@ func (in *Interp) callFn(fn *ssa.Function, args []AVal, bind []AVal) AVal {
 		in.cut("no body for %s", fnName(fn))
 	}
 	in.depth++
-	defer func() { in.depth-- }()
+	in.stack = append(in.stack, fn)
+	defer func() { in.depth--; in.stack = in.stack[:len(in.stack)-1] }()
 	if in.depth > in.MaxDepth {
 		in.cut("call depth exceeds %d at %s", in.MaxDepth, fnName(fn))
 	}
 	fr := &frame{fn: fn, env: map[ssa.Value]AVal{}, visits: map[*ssa.BasicBlock]int{}, headers: in.loopHeaders(fn),
 		snap: map[*ssa.BasicBlock]*loopSnap{}, stored: map[*Cell]bool{}}
+	if in.invCount == nil {
+		in.invCount = map[*ssa.Function]int{}
+	}
+	in.invCount[fn]++
+	fr.inv = in.invCount[fn]
 	for i, p := range fn.Params {
 		if i < len(args) {
 			fr.env[p] = args[i]
@@ -453,10 +486,19 @@ func (in *Interp) callFn(fn *ssa.Function, args []AVal, bind []AVal) AVal {
 			// the abstract state equals the one of the previous arrival (its futures are
 			// explored from there).
 			loopID := fmt.Sprintf("φ:%s:%d", fnName(fn), b.Index)
+			if fr.inv > 1 {
+				loopID = fmt.Sprintf("φ:%s/%d:%d", fnName(fn), fr.inv, b.Index)
+			}
+			if fr.snap[b] != nil && in.SnapshotPC {
+				in.Emit("loop-back", b.Instrs[0])
+			}
 			old := fr.snap[b]
 			if old == nil && in.EagerWiden {
 				for i, ph := range phis {
 					variant := false
+					if _, basic := ph.Type().Underlying().(*types.Basic); !basic {
+						continue // only counters / scalars are abstracted eagerly
+					}
 					for _, e := range ph.Edges {
 						if e != ph.Edges[0] {
 							variant = true
@@ -483,10 +525,20 @@ func (in *Interp) callFn(fn *ssa.Function, args []AVal, bind []AVal) AVal {
 				}
 			}
 			if prevSnap := fr.snap[b]; prevSnap != nil && in.ForgetAll {
+				// forget what was learnt inside the loop about loop-variant values
+				kept := in.journal[:prevSnap.jmark:prevSnap.jmark]
 				for i := len(in.journal) - 1; i >= prevSnap.jmark; i-- {
-					in.journal[i]()
+					je := in.journal[i]
+					if strings.Contains(je.key, loopID) || (in.Variant != nil && in.Variant(je.key)) {
+						je.undo()
+					}
 				}
-				in.journal = in.journal[:prevSnap.jmark]
+				for _, je := range in.journal[prevSnap.jmark:] {
+					if !(strings.Contains(je.key, loopID) || (in.Variant != nil && in.Variant(je.key))) {
+						kept = append(kept, je)
+					}
+				}
+				in.journal = kept
 			}
 			sn := &loopSnap{nEvents: in.monitoredEvents()}
 			if prevSnap := fr.snap[b]; prevSnap != nil {
@@ -849,6 +901,9 @@ func (in *Interp) evalValue(fr *frame, v ssa.Value) AVal {
 		k := fmt.Sprintf("next(%s)@1", keyOf(it))
 		if n > 1 {
 			k = fmt.Sprintf("next(%s)@φ:%s:%d", keyOf(it), fnName(fr.fn), ins.Block().Index)
+			if fr.inv > 1 {
+				k = fmt.Sprintf("next(%s)@φ:%s/%d:%d", keyOf(it), fnName(fr.fn), fr.inv, ins.Block().Index)
+			}
 		}
 		tt := x.Type().(*types.Tuple)
 		return Tup{E: []AVal{Sym{K: "ok:" + k, T: types.Typ[types.Bool]}, Sym{K: "key:" + k, T: tt.At(1).Type()}, Sym{K: "val:" + k, T: tt.At(2).Type()}}}
